@@ -152,8 +152,8 @@ M("c03_header_and_body_two_writes", ["C03"],
    "        frame = Frame(opcode, payload=bytearray(data))\n        _b = frame.to_bytes()\n        self.write(_b, closing=frame.is_close)"),
   equivalent=True)
 M("c03_text_encoded_surrogatepass", ["C03"],
-  ("lomond/websocket.py", "        payload = text.encode('utf-8')", "        payload = text.encode('utf-8', 'surrogatepass')"),
-  equivalent=True)
+  ("lomond/websocket.py", "        payload = text.encode('utf-8')", "        payload = text.encode('utf-8', 'surrogatepass')"))
+  # not equivalent: a text with a lone surrogate is then written as invalid UTF-8 instead of raising
 
 # ---- C07 -----------------------------------------------------------------
 M("c07_no_ready_gate", ["C07"],
@@ -182,7 +182,8 @@ M("c07_poll_before_ready_after_reject", ["C07"],
 # ---- C08 -----------------------------------------------------------------
 M("c08_closing_flag_not_set", ["C08"],
   ("lomond/websocket.py", "                self._send_close(code, reason)\n                self.state.closing = True",
-   "                self._send_close(code, reason)"))
+   "                self._send_close(code, reason)"),
+  equivalent=True)   # since fix 343d88b the session sets the flag inside the write lock; this assignment is redundant
 M("c08_echo_normal_code", ["C08"],
   ("lomond/websocket.py", "            self.close(message.code, message.reason)", "            self.close(Status.NORMAL, message.reason)"))
 M("c08_writes_allowed_while_closing", ["C08"],
@@ -205,7 +206,8 @@ M("c08_stop_delivering_when_closing", ["C08"],
   ("lomond/websocket.py", "                    elif message.is_binary:\n                        yield events.Binary(message.data)",
    "                    elif message.is_binary and not self.is_closing:\n                        yield events.Binary(message.data)"))
 M("c08_socket_not_closed_after_closed", ["C08"],
-  ("lomond/session.py", "            # it was a graceful exit.\n            self._close_socket()", "            # it was a graceful exit.\n            pass"))
+  ("lomond/session.py", "            # it was a graceful exit.\n            self._close_socket()", "            # it was a graceful exit.\n            pass"),
+  equivalent=True)   # since fix 1875f4e run()'s finally closes the socket on every path
 
 # ---- C14 -----------------------------------------------------------------
 M("c14_pong_after_yield", ["C14"],
@@ -246,7 +248,8 @@ M("c09_write_lets_exceptions_through", ["C09"],
   ("lomond/session.py", "            except Exception as error:\n                log.warning('WebSocket send error; %s', error)",
    "            except ZeroDivisionError as error:\n                log.warning('WebSocket send error; %s', error)"))
 M("c09_socket_kept_on_socket_fail", ["C09"],
-  ("lomond/session.py", "            # exception. The result is we are disconnected.\n            self._close_socket()", "            # exception. The result is we are disconnected.\n            pass"))
+  ("lomond/session.py", "            # exception. The result is we are disconnected.\n            self._close_socket()", "            # exception. The result is we are disconnected.\n            pass"),
+  equivalent=True)   # since fix 1875f4e run()'s finally closes the socket on every path
 M("c09_connect_non_socket_error_escapes", ["C09"],
   ("lomond/session.py", "        except Exception as error:\n            log.error('error connecting to %s; %s', url, error)\n            yield events.ConnectFail('{}'.format(error))\n            return",
    "        except ZeroDivisionError as error:\n            log.error('error connecting to %s; %s', url, error)\n            yield events.ConnectFail('{}'.format(error))\n            return"))
@@ -452,8 +455,9 @@ M("c19_wss_not_wrapped_after_tunnel", ["C19"],
 # ---- C18 -----------------------------------------------------------------
 _NO_SHORTCUT = ("lomond/selectors.py", "        if hasattr(self._socket, 'pending') and self._socket.pending():\n            return True, self._socket.pending()\n", "")
 _SMALL_BUFFER = ("lomond/session.py", "    BUFFER_SIZE = 64 * 1024", "    BUFFER_SIZE = 4 * 1024")
-M("c18_no_pending_shortcut", ["C18"], _NO_SHORTCUT,
-  equivalent=True)  # with a 64 KiB read a whole TLS record is always consumed, pending() stays 0
+M("c18_no_pending_shortcut", ["C18"], _NO_SHORTCUT)
+  # unobservable with OpenSSL's record-at-a-time reads and a 64 KiB buffer (pending() stays 0), but it
+  # breaks with a TLS layer that reads ahead (the "eager" model variant) and with a smaller buffer
 M("c18_small_buffer", ["C18"], _SMALL_BUFFER,
   equivalent=True)  # smaller reads, but the pending() short-cut keeps draining the TLS layer
 M("c18_small_buffer_and_no_shortcut", ["C18"], _NO_SHORTCUT, _SMALL_BUFFER)   # two sites that each look fine alone
